@@ -719,6 +719,8 @@ func (sys *System) ensureStorage(ctx *Context) (Storage, error) {
 // might not really do anything (depending on the Storage, of course).
 func (sys *System) Close(ctx *Context) error {
 	Log(INFO, ctx, "System.Close")
+	sys.Lock()
+	defer sys.Unlock()
 	if sys.storage != nil {
 		err := sys.storage.Close(ctx)
 		sys.storage = nil // ?
@@ -736,7 +738,9 @@ func (sys *System) Close(ctx *Context) error {
 // function.
 func (sys *System) newLocation(ctx *Context, name string) (*Location, error) {
 
+	sys.Lock()
 	storage, err := sys.ensureStorage(ctx)
+	sys.Unlock()
 	if err != nil {
 		return nil, err
 	}
@@ -1508,6 +1512,8 @@ func (sys *System) GetProfileBlock(ctx *Context) (string, error) {
 //
 // Used by 'service' for testing purposes.
 func (sys *System) PeekStorage(ctx *Context) (Storage, error) {
+	sys.Lock()
+	defer sys.Unlock()
 	return sys.storage, nil
 }
 
